@@ -454,6 +454,32 @@ def _v_shape_again(tree):
     )
 
 
+_CAP = """fit, load = 0, 0
+for d in sorted(demands%s):
+    if load + d > capacity:
+        break
+    load += d
+    fit += 1
+"""
+
+
+def _cap_subsets(tree, order):
+    g = M.find_func(tree, "SATEncoder._encode_capacity_constraint")
+    loops = [i for i, st_ in enumerate(g.body) if isinstance(st_, ast.For) and M.src_is(st_.target, "size")]
+    if not loops:
+        raise M.Skip("size loop not found")
+    g.body[loops[0]].iter = M.expr("range(1, min(n, fit + 1) + 1)")
+    g.body[loops[0]:loops[0]] = M.stmts(_CAP % order)
+
+
+def _v_cap_from_heaviest(tree):
+    _cap_subsets(tree, ", reverse=True")
+
+
+def _t_cap_from_lightest(tree):
+    _cap_subsets(tree, "")
+
+
 def _v_flatten_memo_on_model(tree):
     g = M.find_func(tree, "Model._flatten_sum")
     M.replace_stmt(g, lambda s: isinstance(s, ast.Return) and M.src_has(s, "coefs"), lambda s: M.stmts("self._flat_cache = {id(expr): (coefs, const)}") + [s], count=1)
@@ -564,6 +590,8 @@ VARIANTS = [
     M.Variant("encoder dispatches on shapes again (original defect)", ENC, _v_shape_again, "C06-O4"),
     M.Variant("auxiliary variables keep the model's literals and the encoder counter is re-synchronised (seed C05-D)", ENC, _v_resync_counter, "C06-O7"),
     M.Variant("the shared flattener memoises its result on the model, and the encoder merges into it in place (seed C06-L)", "solvor/cp.py", _v_flatten_memo_on_model, "C06-O7"),
+    M.Variant("overloading subsets capped at (number of heaviest tasks that fit) + 1 (seed C06-A)", ENC, _v_cap_from_heaviest, "C06-O13"),
+    M.Variant("twin: overloading subsets capped at (number of lightest tasks that fit) + 1", ENC, _t_cap_from_lightest, None),
     M.Variant("auxiliary variables are registered in the model and re-encoded by the next solve (original defect)", ENC, _v_aux_registered, "C06-O7"),
     M.Variant("no_overlap skips pairs using the other task's duration (seed C06-D)", ENC, _v_skip_pairs_wrong_duration, "C06-O8"),
     M.Variant("pairwise disjunction adds task 1's duration to task 2's start", ENC, _v_disjunctive_wrong_duration, "C06-O8"),
